@@ -1715,6 +1715,51 @@ func checkAnchorID(dangling bool) string {
 	return ""
 }
 
+// checkNoBase: ExpandSpec of a root given with no location at all (the caller's options hold a loader only): a reference leads into
+// another document (found from the working directory), whose own fragment-only references are read in THAT document - one that
+// exists there is expanded; one that exists only in the root (a homonym) leads nowhere and is reported.
+func checkNoBase(dangling bool) string {
+	type m = map[string]interface{}
+	cwdURL := strings.TrimSuffix(exPseudoRoot, ".root")
+	inner := "#/definitions/inner"
+	if dangling {
+		inner = "#/definitions/ghost"
+	}
+	root := m{"swagger": "2.0", "info": m{"title": "root", "version": "1"}, "paths": m{},
+		"definitions": m{"uses": m{"$ref": "other.json#/definitions/outer"}, "ghost": m{"type": "boolean", "description": "ghost of the root"},
+			"inner": m{"type": "boolean", "description": "inner of the root"}}}
+	other := m{"definitions": m{"outer": m{"type": "object", "properties": m{"x": m{"$ref": inner}}}, "inner": m{"type": "string", "description": "inner of other"}}}
+	g := exFromGeneric(m{exPseudoRoot: root, cwdURL + "other.json": other}, exPseudoRoot)
+	c := g.call("expand_spec", exOpts{})
+	c.EmptyBase = true
+	strict := exWorkerRun(c)
+	if strict.Timeout || strict.Panic != "" {
+		return ""
+	}
+	if !dangling {
+		if strict.Err {
+			return "ExpandSpec of a root without a location reports an error although every reference resolves (a fragment-only reference inside another document): " + exClip(strict.ErrText, 200)
+		}
+		if !strings.Contains(string(strict.Out), "inner of other") || strings.Contains(string(strict.Out), `"x":{"description":"inner of the root"`) {
+			return "ExpandSpec of a root without a location reads a fragment-only reference of another document in the root: " + exClip(string(strict.Out), 300)
+		}
+		return ""
+	}
+	if !strict.Err {
+		return "ExpandSpec of a root without a location: no error although `#/definitions/ghost` leads nowhere in the document that contains it (the root has a definition of that name)"
+	}
+	c2 := g.call("expand_spec", exOpts{Cont: true})
+	c2.EmptyBase = true
+	cont := exWorkerRun(c2)
+	if cont.Timeout || cont.Panic != "" {
+		return ""
+	}
+	if cont.Err || strings.Contains(string(cont.Out), `"x":{"description":"ghost of the root"`) {
+		return "ContinueOnError, root without a location: the unresolvable `#/definitions/ghost` of another document is replaced by the root's definition of that name (or an error is returned)"
+	}
+	return ""
+}
+
 func refSiblingCases() []refSiblingInput {
 	var out []refSiblingInput
 	for _, f := range []string{"missing-pointer", "refused-document"} {
@@ -1735,6 +1780,14 @@ func oracleC08Sibling(r *rng, n int, tier string) *oracleResult {
 			if len(res.Failures) < 2 {
 				res.Failures = append(res.Failures, failure{Property: "C08", What: msg, Shape: "silent-failure:below-a-member-next-to-a-reference", Input: in})
 			}
+		}
+	}
+	for _, dangling := range []bool{false, true} {
+		res.Evaluations += 2
+		res.Distinct++
+		if msg := checkNoBase(dangling); msg != "" {
+			res.Stats["fail:no-base"]++
+			res.Failures = append(res.Failures, failure{Property: "C08", What: msg, Shape: "silent-failure:root-without-location", Input: refSiblingInput{Kind: "no-base", Fault: fmt.Sprint(dangling)}})
 		}
 	}
 	for _, dangling := range []bool{false, true} {
@@ -1765,6 +1818,12 @@ func init() {
 		var in refSiblingInput
 		res := &oracleResult{Stats: map[string]int{}, Evaluations: 1}
 		if json.Unmarshal(input, &in) != nil {
+			return res
+		}
+		if in.Kind == "no-base" {
+			if msg := checkNoBase(in.Fault == "true"); msg != "" {
+				res.Failures = append(res.Failures, failure{Property: "C08", What: msg, Shape: "silent-failure:root-without-location", Input: in})
+			}
 			return res
 		}
 		if in.Kind == "anchor-id" {
